@@ -614,4 +614,59 @@ def FSc.order (db : Db) (small : Rat) (op : Op) (a b : FSc) : Except ErrKind Boo
 
 def FSc.toObj (a : FSc) : Obj := .fscalar a.v a.q.toQty
 
+/-! ## 6. any two ordered operands: Scalar or FractionScalar, on a simple (table unit, the `<unknown>`
+unit of the quantity type `Unknown` included) or on the empty quantity -/
+
+/-- the quantity of an ordered operand -/
+inductive OrdQ
+  | simple (q : SimpleQ)
+  /-- `Quantity.CreateEmpty()`: derived, no composing unit; category, quantity type and unit are `''` -/
+  | empty
+deriving DecidableEq, Repr
+
+def OrdQ.qtype : OrdQ → Sym
+  | .simple q => q.qtype
+  | .empty => 0
+
+def OrdQ.unit : OrdQ → Sym
+  | .simple q => q.unit
+  | .empty => 0
+
+inductive Operand
+  | sc (v : Rat) (q : OrdQ)
+  | fsc (v : FVal) (q : OrdQ)
+deriving DecidableEq, Repr
+
+def Operand.q : Operand → OrdQ
+  | .sc _ q => q
+  | .fsc _ q => q
+
+/-- `float()` of the operand's own value -/
+def Operand.own : Operand → Rat
+  | .sc v _ => v
+  | .fsc v _ => v.toFloat
+
+/-- `float(other.GetValue(unit))`.
+Scalar on the empty quantity: `ConvertScalarValue` returns the value for the own unit `''`, otherwise
+takes the derived branch, where `_ConvertWithExp` with no composing unit returns the value too.
+FractionScalar on the empty quantity: `ConvertFractionValue` calls `ObtainQuantity('', ())`, and
+`Quantity((), '')` raises `TypeError` ("Only str is accepted"). -/
+def Operand.valueIn (db : Db) (small : Rat) (o : Operand) (toU : Sym) : Except ErrKind Rat :=
+  match o with
+  | .sc v (.simple q) => q.convertScalarValue db v toU
+  | .sc v .empty => .ok v
+  | .fsc v (.simple q) =>
+    match convertFractionValue db small v q toU with
+    | .error e => .error e
+    | .ok w => .ok w.toFloat
+  | .fsc _ .empty => .error .type
+
+/-- `_GetValuesToCompare` of either class followed by the comparison of the two values (a float
+against a `FractionValue` ends in `FractionValue`'s reflected method, which compares the floats) -/
+def Operand.order (db : Db) (small : Rat) (op : Op) (a b : Operand) : Except ErrKind Bool :=
+  if a.q.qtype != b.q.qtype then .error .type else
+  match b.valueIn db small a.q.unit with
+  | .error e => .error e
+  | .ok v2 => .ok (op.apply a.own v2)
+
 end Barril
